@@ -153,6 +153,13 @@ func (c *Collector) Record(caseJSON []byte, nontrivial bool, labels ...string) {
 	for _, l := range labels {
 		c.labels[l]++
 	}
+	// diagnosis only: VERIF_DUMP_CASES=<file> appends every executed case, one JSON document per line
+	if p := os.Getenv("VERIF_DUMP_CASES"); p != "" {
+		if f, err := os.OpenFile(p, os.O_APPEND|os.O_CREATE|os.O_WRONLY, 0o644); err == nil {
+			f.Write(append(append([]byte(nil), caseJSON...), '\n'))
+			f.Close()
+		}
+	}
 	if c.first == nil {
 		c.first = append(json.RawMessage(nil), caseJSON...)
 	}
